@@ -562,6 +562,36 @@ func ruleDateNaN(c *Ctx, r *R) {
 			}
 		}
 	}
+	// 15.9.5.43: toISOString of an invalid date throws a RangeError - the one formatter whose NaN side is not a value
+	if iso := protoFns["toISOString"]; iso != nil {
+		found, okIso := false, true
+		for _, b := range iso.Blocks {
+			iff, ok := b.Instrs[len(b.Instrs)-1].(*ssa.If)
+			if !ok {
+				continue
+			}
+			a := loadAddr(iff.Cond)
+			if a == nil || !isFieldAddr(a, "dateObject", "isNaN") {
+				continue
+			}
+			found = true
+			nanSide := b.Succs[0]
+			raises := false
+			for _, ins := range nanSide.Instrs {
+				if call, ok := ins.(*ssa.Call); ok && call.Call.StaticCallee() != nil && call.Call.StaticCallee().Name() == "panicRangeError" {
+					raises = true
+				}
+			}
+			if _, isPanic := nanSide.Instrs[len(nanSide.Instrs)-1].(*ssa.Panic); !isPanic || !raises {
+				okIso = false
+			}
+		}
+		if !found {
+			r.undecided("toISOString:nan-side", c.Pos(iso.Pos()), "UNRESOLVED: no isNaN branch in the function bound to Date.prototype.toISOString")
+		} else {
+			r.check(okIso, "toISOString:nan-side", c.Pos(iso.Pos()), "the NaN side raises a RangeError", "Date.prototype.toISOString returns a value for an invalid date; ES5 15.9.5.43 throws a RangeError (`new Date(NaN).toISOString()` is \"Invalid Date\")")
+		}
+	}
 	// every Date.prototype function that reads a dateObject payload must use the guard (directly or through a helper that does)
 	var names []string
 	for n := range protoFns {
